@@ -42,8 +42,13 @@ def section(rng, path, kind="change", fmt=None, width=None, nonl=True):
         # a normal diff names no file: the name comes from an Index: line (or from the command line)
         text = ("Index: b/%s\n" % path).encode("latin-1") + ("diff a/%s b/%s\n" % (path, path)).encode("latin-1") + emit.emit_normal(ops)
     elif fmt == "context":
-        oldn = "/dev/null" if kind == "add" else "a/" + path
-        text = emit.emit_context(oldn, "b/" + path, hs, "2024-01-01 00:00:00.000000000 +0000", "2024-01-02 00:00:00.000000000 +0000")
+        # creation / deletion either names /dev/null or (diff -N style) keeps the real name with the epoch as time stamp
+        urn = rng.random() < 0.4
+        epoch = "1970-01-01 00:00:00.000000000 +0000"
+        oldn = "a/" + path if (kind != "add" or urn) else "/dev/null"
+        newn = "b/" + path if (kind != "delete" or urn or rng.random() < 0.5) else "/dev/null"
+        text = emit.emit_context(oldn, newn, hs, epoch if kind == "add" else "2024-01-01 00:00:00.000000000 +0000",
+                                 epoch if kind == "delete" else "2024-01-02 00:00:00.000000000 +0000")
     elif fmt == "git":
         if kind == "mode":
             mo, mn = "100644", rng.choice(["100755", "100600", "100664"])
@@ -51,10 +56,12 @@ def section(rng, path, kind="change", fmt=None, width=None, nonl=True):
             mn = "100755"
         text = emit.emit_git(path, newpath, hs, kind=("change" if kind == "mode" else kind), old_mode=mo, new_mode=mn)
     else:
-        oldn = "/dev/null" if kind == "add" else "a/" + path
-        text = emit.emit_unified(oldn, "b/" + path, hs, "2024-01-01 00:00:00.000000000 +0000", "2024-01-02 00:00:00.000000000 +0000")
-        if kind == "delete":
-            text = emit.emit_unified("a/" + path, "/dev/null", hs, "2024-01-01 00:00:00.000000000 +0000", "1970-01-01 00:00:00.000000000 +0000")
+        urn = rng.random() < 0.4
+        epoch = "1970-01-01 00:00:00.000000000 +0000"
+        oldn = "a/" + path if (kind != "add" or urn) else "/dev/null"
+        newn = "b/" + path if (kind != "delete" or urn) else "/dev/null"
+        text = emit.emit_unified(oldn, newn, hs, epoch if kind == "add" else "2024-01-01 00:00:00.000000000 +0000",
+                                 epoch if kind == "delete" else "2024-01-02 00:00:00.000000000 +0000")
     return dict(path=path, newpath=newpath, a=a, b=b, text=text, fmt=fmt, kind=kind, hs=hs, ops=ops, mode_old=mo, mode_new=mn, w=w)
 
 
